@@ -114,6 +114,12 @@ class Recorder:
     def __init__(self, prop):
         self.res = RtcResult(prop, DRIVER)
         self.classes = Counter()
+        self.skipped = 0
+
+    def finish(self):
+        if self.skipped:
+            self.res.notes.append("generated outside the precondition (skipped): %d" % self.skipped)
+        return self.res
 
     def run(self, spec, label):
         try:
@@ -123,7 +129,10 @@ class Recorder:
             return
         for r in recs:
             if r["status"] == "declined":
-                self.res.declined += 1
+                if r["contract"] == "precondition":  # the generator missed the precondition: not funsor declining
+                    self.skipped += 1
+                else:
+                    self.res.declined += 1
                 continue
             self.res.evaluated(r["contract"], case_key(spec, r), r.get("nontrivial", True), sample=None)
             if r["status"] == "fail":
@@ -155,7 +164,7 @@ def unit_c12_ctor(args):
                 spec = {"kind": "chain", "leaf": leaf, "ops": [], "pseed": (seed * 1000 + n) % 4294967291, "threshold": th}
                 n += 1
                 R.run(spec, "ctor:%s+%s:rank=%d:th=%s" % (ctor[0], ctor[1], rank, th))
-    return R.res
+    return R.finish()
 
 
 def unit_c12_depth1(args):
@@ -171,7 +180,7 @@ def unit_c12_depth1(args):
             continue
         spec = {"kind": "chain", "leaf": leaf, "ops": [step], "pseed": (seed * 1000 + k) % 4294967291, "check_leaf": False}
         R.run(spec, label)
-    return R.res
+    return R.finish()
 
 
 def unit_c12_compress(args):
@@ -185,7 +194,7 @@ def unit_c12_compress(args):
     for mode in (False, True):
         spec = {"kind": "compress_rank", "white_vec": C.enc(w), "prec_sqrt": C.enc(S), "assume_full_rank": mode, "pseed": seed}
         R.run(spec, "compress_rank:dim=%d:rank=%d:batch=%s:%s" % (dim, rank, list(bshape), "cholesky" if mode else "qr"))
-    return R.res
+    return R.finish()
 
 
 def unit_c12_affine(args):
@@ -194,7 +203,7 @@ def unit_c12_affine(args):
     rs = np.random.RandomState(seed)
     for k, (label, e) in enumerate(G.affine_test_exprs(rs, shapes, with_batch)):
         R.run({"kind": "extract_affine", "expr": e, "pseed": (seed * 100 + k) % 4294967291}, "extract_affine:" + label)
-    return R.res
+    return R.finish()
 
 
 def unit_c12_chains(args):
@@ -213,7 +222,7 @@ def unit_c12_chains(args):
         th = [2, 2, 1, "inf"][rs.randint(4)]
         spec = {"kind": "chain", "leaf": leaf, "ops": ops_, "pseed": (seed * 100000 + k) % 4294967291, "check_leaf": False, "threshold": th}
         R.run(spec, "chain:" + " > ".join(labels))
-    return R.res
+    return R.finish()
 
 
 def unit_c13_sig(args):
@@ -246,7 +255,7 @@ def unit_c13_sig(args):
                     go(label, {"kind": "moment_matching", "leaf": leaf, "tensor": t, "names": names})
     for label, frag in G.c13_deficient(rs, sig):
         go(label, dict(frag, kind="deficient"))
-    return R.res
+    return R.finish()
 
 
 def _seeded(spec, seed, n):
@@ -269,7 +278,7 @@ def unit_c14_delta(args):
         for fl, f, vias in fcases:
             for via in vias:
                 R.run(_seeded(dict(frag, kind="delta_reduce", f=f, via=via), seed, n), "delta_%s:%s:%s" % (via, label, fl))
-    return R.res
+    return R.finish()
 
 
 def unit_c14_tensor(args):
@@ -282,7 +291,7 @@ def unit_c14_tensor(args):
             continue
         R.run(_seeded(dict(frag, kind="tensor_sample"), seed, n), label)
         R.run(_seeded(dict(frag, kind="mc_tensor", f=f), seed, n), label.replace("tensor_sample", "mc_tensor"))
-    return R.res
+    return R.finish()
 
 
 def unit_c14_gauss(args):
@@ -302,7 +311,7 @@ def unit_c14_gauss(args):
         n += 1
         if n % parts == part:
             R.run(_seeded(dict(frag, kind="mixture_sample"), seed, n), label)
-    return R.res
+    return R.finish()
 
 
 UNITS = {
@@ -470,6 +479,13 @@ def run(prop_id, tier="quick", seed=0, jobs=16):
     for p in parts:
         res.merge(p)
     res.bounds["work_units"] = len(units)
+    skipped = sum(int(n.rsplit(" ", 1)[1]) for n in res.notes if n.startswith("generated outside the precondition"))
+    derr = [n for n in res.notes if n.startswith("DRIVER ERROR")]
+    res.notes = [n for n in res.notes if not n.startswith(("generated outside the precondition", "DRIVER ERROR"))]
+    if skipped:
+        res.notes.append("cases generated outside the precondition and skipped: %d" % skipped)
+    if derr:
+        res.notes.append("DRIVER ERRORS: %d (first: %s)" % (len(derr), derr[0][:300]))
     classes = Counter()
     for f in res.failures:
         classes[" | ".join([f["contract"]] + sorted(t for t in f["tags"] if not t.startswith(NOISE_PREFIX)))] += 1
